@@ -52,7 +52,7 @@ pub fn replay_file(path: &str) -> i32 {
 pub fn replay_case(prop: &str, case: &Value) -> Result<u64, String> {
     let kind = case["kind"].as_str().unwrap_or("");
     match kind {
-        "filter" | "candidate" | "value" => {
+        "filter" | "candidate" | "value" | "queries" => {
             let tag = case["universe"].as_str().ok_or("no universe")?;
             let uni = crate::unis::by_tag(tag).ok_or_else(|| format!("unknown universe {tag}"))?;
             let ctxs: Vec<MCtx> = match case.get("ctx") {
@@ -68,6 +68,10 @@ pub fn replay_case(prop: &str, case: &Value) -> Result<u64, String> {
                     let e: Expr = serde_json::from_value(case["program"].clone()).map_err(|e| e.to_string())?;
                     let text = case["text"].as_str().ok_or("no text")?;
                     check_filter_text(&run, prop, &b, &e, text);
+                }
+                "queries" => {
+                    let e: Expr = serde_json::from_value(case["program"].clone()).map_err(|e| e.to_string())?;
+                    crate::checks::c17::check_queries(&run, &b, &e);
                 }
                 "candidate" => {
                     let e: Expr = serde_json::from_value(case["program"].clone()).map_err(|e| e.to_string())?;
